@@ -101,9 +101,9 @@ def lean_prepare(prop_id, modules, thorough=False, prop_files=None):
             af.write_text(''.join(f'import OFProps.{pf}\n' for pf in prop_files) + ''.join(f'#print axioms {n}\n' for n in names))
             rc, out = _lake(['env', 'lean', str(af)])
             for n in names: st.theorems[n] = None
-            for m in re.finditer(r"'([^']+)' depends on axioms: \[([^\]]*)\]", out.replace('\n', ' ')):
+            for m in re.finditer(r"'([^' ]+'*)' depends on axioms: \[([^\]]*)\]", out.replace('\n', ' ')):
                 st.theorems[m.group(1)] = [a.strip() for a in m.group(2).split(',') if a.strip()]
-            for m in re.finditer(r"'([^']+)' does not depend on any axioms", out):
+            for m in re.finditer(r"'([^' ]+'*)' does not depend on any axioms", out):
                 st.theorems[m.group(1)] = []
             for n, ax in st.theorems.items():
                 if ax is None: st.audit_errors.append(f'{n}: not checked ({out.strip()[:200]})')
